@@ -171,6 +171,8 @@ func Main() int {
 		replay   = flag.String("replay", "", "replay a trace file")
 		selftest = flag.Bool("selftest", false, "determinism self-test")
 		dump     = flag.Int("dump", -1, "print the generated trace of run N and exit")
+		racew    = flag.Bool("raceworker", false, "internal: run as race-pass worker (variant C binary)")
+		racerep  = flag.String("racereplay", "", "internal: replay a race workload (variant C binary)")
 	)
 	flag.Parse()
 	defer func() {
@@ -187,6 +189,10 @@ func Main() int {
 		return SelfTest()
 	case *replay != "":
 		return Replay(*prop, *replay)
+	case *racerep != "":
+		return RaceReplayMain(*racerep)
+	case *racew:
+		return RaceWorker(*seed, *tier, *shard, *nshard, *out)
 	case *worker:
 		return workerMain(*prop, *tier, *seed, *shard, *nshard, *out)
 	case *dump >= 0:
@@ -235,7 +241,19 @@ func workerMain(prop, tier string, seed uint64, shard, nshard int, out string) i
 		fmt.Fprintln(os.Stderr, "unknown property", prop)
 		return 2
 	}
-	p := pf(tier)
+	return WorkerLoop(pf(tier), prop, seed, shard, nshard, out)
+}
+
+// PlanFor returns the registered plan of a property.
+func PlanFor(prop, tier string) *Plan {
+	if pf := plans[prop]; pf != nil {
+		return pf(tier)
+	}
+	return nil
+}
+
+// WorkerLoop runs the shard's runs of plan p and writes a WorkerReport to out.
+func WorkerLoop(p *Plan, prop string, seed uint64, shard, nshard int, out string) int {
 	findings, err := LoadFindings(verifDir())
 	if err != nil {
 		fmt.Fprintln(os.Stderr, "harness:", err)
@@ -307,6 +325,10 @@ func workerMain(prop, tier string, seed uint64, shard, nshard int, out string) i
 	sort.Slice(rep.KnownHits, func(i, j int) bool { return rep.KnownHits[i].Sig < rep.KnownHits[j].Sig })
 	st.Seal()
 	rep.WallS = time.Since(start).Seconds()
+	return writeReport(rep, out)
+}
+
+func writeReport(rep *WorkerReport, out string) int {
 	b, _ := json.Marshal(rep)
 	if err := os.WriteFile(out, b, 0o644); err != nil {
 		fmt.Fprintln(os.Stderr, "harness:", err)
